@@ -55,8 +55,12 @@ def leaves_module():
     return ("---- MODULE MatLeaves ----\nEXTENDS Integers, Sequences\nLeaves == [\n " + ",\n ".join(recs) + "\n]\n====\n")
 
 
+ORDER = ["C"]     # memory layout of the arrays handed to the constructors ("F": column-major, as returned by LAPACK wrappers)
+
+
 def arr(m):
-    return np.array([[float(frac(x)) for x in row] for row in m], dtype=float)
+    a = np.array([[float(frac(x)) for x in row] for row in m], dtype=float)
+    return np.asfortranarray(a) if ORDER[0] == "F" else a
 
 
 def build_leaf(name):
@@ -442,9 +446,13 @@ def check_value_semantics():
     def add(sig, what, rp):
         viol.append(("C19", sig, what, rp))
 
-    for l in PARAMS:
+    variants = [(l, "C") for l in PARAMS] + [(l, "F") for l in PARAMS if "p1" in l and len(l["p1"]) > 1 and len(l["p1"][0]) > 1]
+    for l, order in variants:
+        ORDER[0] = order
         name, cls = l["name"], l["cls"]
-        rp = {"engine": "matrices-value", "leaf": name}
+        rp = {"engine": "matrices-value", "leaf": name, "order": order}
+        if order == "F":
+            cls = cls + "[column-major]"
         a, b = build_leaf(name), build_leaf(name)
         n += 1
         try:
@@ -502,6 +510,62 @@ def check_value_semantics():
             if changed:
                 add(f"C19:{cls}:{opname}:operand-modified:{changed[0]}", f"{name}: {opname} changed the operand's {changed}", rp)
                 break
+    ORDER[0] = "C"
+    v2, n2 = check_equality_vs_hash()
+    return viol + v2, n + n2
+
+
+def check_equality_vs_hash():
+    """`==` must not depend on whether hashes were requested first, and equality implies equal dense arrays --
+    also for objects whose parameter hashes collide (CPython: hash(-1) == hash(-2), hash(1.0) == hash(2.0**61))."""
+    import mici.matrices as M
+
+    viol, n = [], 0
+
+    def pairs():
+        for k in (1, 2, 3):
+            yield f"-I{k} vs -2*I{k}", (lambda k=k: -M.IdentityMatrix(k)), (lambda k=k: -2 * M.IdentityMatrix(k))
+            yield f"I{k}*1.0 vs I{k}*2**61", (lambda k=k: 1.0 * M.IdentityMatrix(k)), (lambda k=k: 2.0**61 * M.IdentityMatrix(k))
+        d = lambda: M.DiagonalMatrix(np.array([2.0]))  # noqa: E731
+        yield "blockdiag(-I2, D) vs blockdiag(-2*I2, D)", (lambda: M.SymmetricBlockDiagonalMatrix((-M.IdentityMatrix(2), d()))), \
+            (lambda: M.SymmetricBlockDiagonalMatrix((-2 * M.IdentityMatrix(2), d())))
+        f = lambda: M.DenseRectangularMatrix(np.array([[1.0], [1.0], [0.0]]))  # noqa: E731
+        yield "lowrank(F, -I3) vs lowrank(F, -2*I3)", (lambda: M.SymmetricLowRankUpdateMatrix(f(), -M.IdentityMatrix(3))), \
+            (lambda: M.SymmetricLowRankUpdateMatrix(f(), -2 * M.IdentityMatrix(3)))
+        dn = lambda: M.DenseSquareMatrix(np.array([[1.0, 2.0], [0.5, 3.0]]))  # noqa: E731
+        yield "(-I2)@A vs (-2*I2)@A", (lambda: M.MatrixProduct((-M.IdentityMatrix(2), dn()))), (lambda: M.MatrixProduct((-2 * M.IdentityMatrix(2), dn())))
+        # every pair of distinct leaves of the same class and shape
+        by = {}
+        for l in PARAMS:
+            by.setdefault(l["cls"], []).append(l["name"])
+        for cls, names in by.items():
+            for i, x in enumerate(names):
+                for y in names[i + 1:]:
+                    yield f"{x} vs {y}", (lambda x=x: build_leaf(x)), (lambda y=y: build_leaf(y))
+
+    for label, mk_a, mk_b in pairs():
+        rp = {"engine": "matrices-eqhash", "pair": label}
+        try:
+            a, b = mk_a(), mk_b()
+            if a.shape != b.shape:
+                continue
+            n += 1
+            cls = type(a).__name__
+            same = bool(np.array_equal(np.asarray(a.array), np.asarray(b.array)))
+            eq_fresh = bool(a == b)
+            hash(a), hash(b)
+            eq_hashed = bool(a == b)
+            in_set = len({a, b})
+        except Exception as e:  # noqa: BLE001
+            viol.append(("C19", f"C19:eq-hash-exception:{type(e).__name__}", f"{label}: ==/hash raised {e}", rp))
+            continue
+        if eq_fresh != eq_hashed:
+            viol.append(("C19", f"C19:{cls}:equality-depends-on-hash-requests",
+                         f"{label}: a == b is {eq_fresh} before and {eq_hashed} after both hashes were requested", rp))
+        if (eq_fresh or eq_hashed) and not same:
+            viol.append(("C19", f"C19:{cls}:unequal-values-compare-equal", f"{label}: compare equal but have different dense arrays", rp))
+        if in_set == 1 and not same:
+            viol.append(("C19", f"C19:{cls}:distinct-values-merged-in-set", f"{label}: a set keeps only one of two matrices with different values", rp))
     return viol, n
 
 
